@@ -42,7 +42,11 @@ Init ==
 
 Live(c)    == alloc[c].live
 Owns(c, u) == Live(c) /\ alloc[c].user = u
-ConnsOf(c) == {id \in Ids : conn[id].open /\ conn[id].owner = c}
+\* an ORPHAN is a peer connection whose outgoing dial ended after its allocation had expired (named deviation
+\* OrphanAfterSlowDial: the server registers it on the allocation object that is no longer in the table and answers the
+\* Connect with success; nobody can bind it, and the bind deadline closes it)
+Orphan(id) == "orphan" \in DOMAIN conn[id]
+ConnsOf(c) == {id \in Ids : conn[id].open /\ ~Orphan(id) /\ conn[id].owner = c}
 Resp(c, m, cls, code) == [k |-> "resp", to |-> c, m |-> m, cls |-> cls, code |-> code]
 \* alloc[c].dial (present only meanwhile): the peer a Connect of c is dialling.  The server reads a control connection
 \* one request at a time, so c itself is not served until the dial ends; everybody else is.
@@ -97,9 +101,10 @@ DialDone(c) ==
   /\ Dialing(c) /\ nextId <= MaxConns
   /\ LET p == alloc[c].dial IN
      /\ last' = [a |-> "DialDone", c |-> c, p |-> p]
-     /\ alloc' = [alloc EXCEPT ![c] = [live |-> TRUE, user |-> alloc[c].user, rem |-> alloc[c].rem]]
-     /\ conn' = [conn EXCEPT ![nextId] = [open |-> TRUE, owner |-> c, peer |-> p, dir |-> "out",
-                                          bound |-> FALSE, rem |-> BindTO, held |-> <<>>]]
+     /\ alloc' = [alloc EXCEPT ![c] = IF Live(c) THEN [live |-> TRUE, user |-> alloc[c].user, rem |-> alloc[c].rem] ELSE NoAlloc]
+     /\ conn' = [conn EXCEPT ![nextId] =
+                   IF Live(c) THEN [open |-> TRUE, owner |-> c, peer |-> p, dir |-> "out", bound |-> FALSE, rem |-> BindTO, held |-> <<>>]
+                   ELSE [open |-> TRUE, owner |-> c, peer |-> p, dir |-> "out", bound |-> FALSE, rem |-> BindTO, held |-> <<>>, orphan |-> TRUE]]
      /\ nextId' = nextId + 1
      /\ UNCHANGED perm
      /\ out' = {[k |-> "resp", to |-> c, m |-> "Connect", cls |-> "ok", code |-> 0, id |-> nextId],
@@ -123,7 +128,7 @@ PeerConnect(c, p) ==
 (* that was never handed out.                                                               *)
 ConnectionBind(u, id) ==
   /\ last' = [a |-> "ConnectionBind", u |-> u, id |-> id]
-  /\ IF id = 0 \/ ~conn[id].open \/ alloc[conn[id].owner].user # u \/ conn[id].bound
+  /\ IF id = 0 \/ ~conn[id].open \/ Orphan(id) \/ alloc[conn[id].owner].user # u \/ conn[id].bound
        THEN UNCHANGED state /\ out' = {[k |-> "bindresp", cls |-> "err", code |-> 400]}
        ELSE /\ conn' = [conn EXCEPT ![id].bound = TRUE, ![id].rem = 0, ![id].held = <<>>]
             /\ UNCHANGED <<alloc, perm, nextId>>
@@ -171,7 +176,7 @@ ControlClose(c) ==
   /\ last' = [a |-> "ControlClose", c |-> c]
   /\ alloc' = [alloc EXCEPT ![c] = NoAlloc]
   /\ perm'  = [perm EXCEPT ![c] = [i \in PeerIPs |-> 0]]
-  /\ conn'  = [id \in Ids |-> IF conn[id].open /\ conn[id].owner = c THEN NoConn ELSE conn[id]]
+  /\ conn'  = [id \in Ids |-> IF id \in ConnsOf(c) THEN NoConn ELSE conn[id]]
   /\ UNCHANGED nextId
   /\ out' = Gone(ConnsOf(c))
 
@@ -179,7 +184,7 @@ ControlClose(c) ==
 (* that was accepted earlier tries afterwards has no effect                                       *)
 Down == \E c \in Clients : "down" \in DOMAIN alloc[c]
 ServerClose ==
-  /\ ~Down /\ ~AnyDial
+  /\ ~Down /\ ~AnyDial /\ \A id \in Ids : conn[id].open => ~Orphan(id)
   /\ last' = [a |-> "ServerClose"]
   /\ alloc' = [c \in Clients |-> [live |-> FALSE, down |-> TRUE]]
   /\ perm'  = [c \in Clients |-> [i \in PeerIPs |-> 0]]
@@ -198,11 +203,10 @@ MinRem == CHOOSE m \in Rems : \A r \in Rems : m <= r
 Jumps  == IF Rems = {} THEN {} ELSE {1, MinRem - 1, MinRem} \ {0}
 Advance(d) ==
   /\ Rems # {} /\ d >= 1 /\ d <= MinRem
-  /\ \A c \in Clients : Dialing(c) => alloc[c].rem > d
   /\ last' = [a |-> "Advance", d |-> d]
   /\ LET dead == {c \in Clients : alloc[c].live /\ alloc[c].rem = d}
-         gone == {id \in Ids : conn[id].open /\ (conn[id].owner \in dead \/ (~conn[id].bound /\ conn[id].rem = d))}
-     IN /\ alloc' = [c \in Clients |-> IF c \in dead THEN NoAlloc
+         gone == {id \in Ids : conn[id].open /\ ((~Orphan(id) /\ conn[id].owner \in dead) \/ (~conn[id].bound /\ conn[id].rem = d))}
+     IN /\ alloc' = [c \in Clients |-> IF c \in dead THEN (IF Dialing(c) THEN [live |-> FALSE, dial |-> alloc[c].dial] ELSE NoAlloc)
                                       ELSE IF alloc[c].live THEN [alloc[c] EXCEPT !.rem = @ - d] ELSE alloc[c]]
         /\ perm'  = [c \in Clients |-> [i \in PeerIPs |-> IF c \in dead \/ perm[c][i] <= d THEN 0 ELSE perm[c][i] - d]]
         /\ conn'  = [id \in Ids |-> IF id \in gone THEN NoConn
@@ -233,7 +237,7 @@ View == state
 DepthBound == TLCGet("level") <= MaxDepth
 
 (* C16 *)
-TypeOK == \A id \in Ids : conn[id].open => /\ alloc[conn[id].owner].live
+TypeOK == \A id \in Ids : (conn[id].open /\ ~Orphan(id)) => /\ alloc[conn[id].owner].live
                                            /\ (conn[id].bound <=> conn[id].rem = 0)
                                            /\ id < nextId
 C15_NothingAfterClose == Down => \A id \in Ids : ~conn[id].open
